@@ -513,6 +513,9 @@ class DictList(list):
         if isinstance(removed, list):
             self._generate_index()
             return
+        if index < 0:
+            # one element is gone already
+            index += len(self) + 1
         _dict = self._dict
         _dict.pop(removed.id)
         for i, j in _dict.items():
